@@ -39,7 +39,7 @@ Definition spec_step (fl : bool) (cap : nat) (s : sstate) (o : op) : option ssta
       chk ((pos <=? length (sget t s)) && (1 <=? room t)) (sput t s (ins (sget t s) pos [x]))
   | InsertN t pos k x =>
       chk ((pos <=? length (sget t s)) && (k <=? room t)) (sput t s (ins (sget t s) pos (repeat x k)))
-  | InsertRange t pos xs | MoveInsertRange t pos xs =>
+  | InsertRange t pos xs | MoveInsertRange t pos xs | InsertRangeFwd t pos xs | MoveInsertRangeFwd t pos xs =>
       chk ((pos <=? length (sget t s)) && (length xs <=? room t)) (sput t s (ins (sget t s) pos xs))
   | EraseAt t pos => chk (pos <? length (sget t s)) (sput t s (del (sget t s) pos 1))
   | EraseRange t f l => chk ((f <=? l) && (l <=? length (sget t s))) (sput t s (del (sget t s) f (l - f)))
@@ -47,7 +47,7 @@ Definition spec_step (fl : bool) (cap : nat) (s : sstate) (o : op) : option ssta
   | Resize t k => chk (k <=? cap) (sput t s (resized (sget t s) k 0%Z))
   | ResizeVal t k x => chk (k <=? cap) (sput t s (resized (sget t s) k x))
   | AssignN t k x => chk (k <=? cap) (sput t s (repeat x k))
-  | AssignRange t xs => chk (length xs <=? cap) (sput t s xs)
+  | AssignRange t xs | AssignRangeFwd t xs => chk (length xs <=? cap) (sput t s xs)
   | Swap => Some (snd s, fst s)
   | CopyAssign t => Some (sput t s (sget (negb t) s))
   | MoveAssign t => Some (sput (negb t) (sput t s (sget (negb t) s)) (marked fl (sget (negb t) s)))
@@ -71,7 +71,7 @@ Definition spec_step (fl : bool) (cap : nat) (s : sstate) (o : op) : option ssta
   | FlatExtract t => Some (sput t s [])
   | FlatReplace t xs => chk (length xs <=? cap) (sput t s xs)
   | CtorN k | CtorNVal k _ => chk (k <=? cap) s
-  | CtorRange xs => chk (length xs <=? cap) s
+  | CtorRange xs | CtorRangeFwd xs | CtorMoveArr xs => chk (length xs <=? cap) s
   end.
 
 Fixpoint spec_run (fl : bool) (cap : nat) (s : sstate) (ops : list op) : option sstate :=
@@ -99,7 +99,7 @@ Definition own_spec_step (s : nat * nat) (o : oop) : option (nat * nat) :=
   | VEmplace t j _ | VAssignRv t j _ | VAssignCr t j _ | VAssignConv t j _ | VAssignTmp t j _ => Some (upd t s j)
   | VCopyAssign t | VMoveAssign t => Some (upd t s (sel (negb t) s))
   | VSwap | FSwap => Some (snd s, fst s)
-  | FAssign t k _ => Some (upd t s k)
+  | FAssign t k _ | FAssignCr t k _ => Some (upd t s k)
   | FAssignNull t | FMoveConstruct t => Some (upd t s 0)
   | FCopyAssign t => Some (upd t s (sel (negb t) s))
   | FMoveAssign t => Some (upd t (upd (negb t) s 0) (sel (negb t) s))
